@@ -7,7 +7,8 @@ ID = 'C19'
 RULE = ('Graphs: every connected graph with 2-6 nodes up to isomorphism (networkx graph atlas; 7 nodes in the thorough tier) '
         'and resolved molecules (hydrogens, rings, edge orders, cis / trans annotated double bonds in both relations); '
         'configuration tree per graph: node relabeling (identity, reversed, offset, interleaved insertion order, string '
-        'keys) x default_bond (1, 0.5, 2.5) x numpy RNG seed (pinned before the call). Oracle on vespr_layout: one position '
+        'keys) x default_bond (1, 0.5, 2.5) x numpy RNG seed (pinned before the call). Histories: two layouts in a row on one graph object (plain / refined / refined with an unreachable energy target, '
+        'different bond lengths). Oracle on vespr_layout: one position '
         'per node, each a finite 2-vector; bonded nodes farther apart than 1e-6 x default_bond; |mean bond length - '
         'default_bond| <= 1e-9 x default_bond. Non-trivial = graph has a cycle, a branch point or stereo annotation.')
 ASSUMPTIONS = [
@@ -45,6 +46,10 @@ def plan(tier, seed):
     trees = [i for i, g in enumerate(atlas(7)) if nx.is_tree(g) and len(g) >= 3]
     for i in (trees if not q else trees[::2]):
         tasks.append({'space': 'refined-trees', 'kind': 'refined', 'index': i, 'seeds': (0,) if q else (0, 1), 'bonds': (1, 2.5)})
+    # histories on ONE graph object: two layouts in a row with different bond lengths (plain and refined),
+    # and a refined layout whose energy target cannot be reached (every retry fails)
+    for i in (trees[::3] if q else trees):
+        tasks.append({'space': 'histories', 'kind': 'history', 'index': i})
     # seed slice: the 7-node atlas graphs number k*40 + seed (spread over the atlas), all relabelings, seed-derived RNG seeds
     tasks.append({'space': 'seed-slice', 'kind': 'atlas7', 'offset': seed % 40, 'seeds': (100 + seed, 200 + seed), 'bonds': (1, 3.0)})
     return tasks
@@ -91,7 +96,49 @@ def graphs_of(task):
     return [('mol%d' % task['index'], mol)]
 
 
+HIST_OPS = [('plain', 1.0), ('plain', 2.5), ('refined', 1.0), ('refined', 2.5), ('refined-strict', 2.0)]
+
+
+def eval_history(inp):
+    """two (or more) layouts in a row on ONE graph object"""
+    import numpy as np
+    from cgsmiles.graph_layout import vespr_layout, vespr_refined_layout
+    g0 = atlas(7)[int(inp['graph'][4:])]
+    h = relabel(g0, inp['relabel'])
+    nx.set_edge_attributes(h, 1, 'order')
+    for kind, b in inp['history']:
+        np.random.seed(0)
+        try:
+            if kind == 'plain':
+                pos, tol = vespr_layout(h, default_bond=b), 1e-9
+            elif kind == 'refined':
+                pos, tol = vespr_refined_layout(h, default_bond=b), 5e-3
+            else:
+                pos, tol = vespr_refined_layout(h, default_bond=b, target_energy=1e-12), 5e-3
+        except Exception as e:
+            return bad('history-raises:' + type(e).__name__, None, {'error': repr(e)[:150], 'op': [kind, b]})
+        m = float(np.mean([np.linalg.norm(np.asarray(pos[a]) - np.asarray(pos[c])) for a, c in h.edges]))
+        if abs(m - b) > tol * b:
+            return bad('history:mean-bond-length-differs-from-default_bond', b, {'mean': m, 'op': [kind, b]})
+    first, second = inp['history'][0], inp['history'][-1]
+    return Verdict(nontrivial=first != second, outcome='hist:%s:%s' % (first[0], second[0]))
+
+
+def run_history(task, R):
+    ex = Explorer(dedup=False)
+    for first in HIST_OPS:
+        for second in HIST_OPS:
+            for rl in ('id', 'offset'):
+                ex.states += 1
+                ex.transitions += 2
+                inp = {'graph': 'tree%d' % task['index'], 'history': [list(first), list(second)], 'relabel': rl}
+                R.record(inp, eval_history(inp))
+    R.add_explorer(ex)
+
+
 def run_task(task, R):
+    if task['kind'] == 'history':
+        return run_history(task, R)
     ex = Explorer(dedup=False)
     for name, g in graphs_of(task):
         rls = RELABEL if not any('ez_isomer' in d for _, d in g.nodes(data=True)) else RELABEL[:4]
@@ -110,6 +157,8 @@ def run_task(task, R):
 def evaluate(inp, g=None):
     import numpy as np
     from cgsmiles.graph_layout import vespr_layout, vespr_refined_layout
+    if 'history' in inp:
+        return eval_history(inp)
     if g is None:
         if inp['mol']:
             from cgsmiles import MoleculeResolver
